@@ -26,14 +26,14 @@ class Query:
     def __init__(self, name, harness, entry, tus=(), defines=None, unwind=8, stubs=(), stdmodel=False, timeout=120,
                  mem_gb=12, backends=('cadical',), checks='mem', bound='', silent_throw=False, renames=None,
                  known=None, allow_bodyless=(), expect_covers=None, extra_cbmc=(), cxxflags=(), note='',
-                 validate=True, unwindset=(), uf=()):
+                 validate=True, unwindset=(), uf=(), new_cap=0):
         self.name = name; self.harness = harness; self.entry = entry; self.tus = tuple(tus)
         self.defines = dict(defines or {}); self.unwind = unwind; self.stubs = tuple(stubs); self.stdmodel = stdmodel
         self.timeout = timeout; self.mem_gb = mem_gb; self.backends = tuple(backends); self.checks = checks
         self.bound = bound; self.silent_throw = silent_throw; self.renames = dict(renames or {})
         self.known = dict(known or {}); self.allow_bodyless = tuple(allow_bodyless)
         self.expect_covers = expect_covers; self.extra_cbmc = tuple(extra_cbmc); self.cxxflags = tuple(cxxflags)
-        self.note = note; self.validate = validate; self.unwindset = tuple(unwindset); self.uf = tuple(uf)
+        self.note = note; self.validate = validate; self.unwindset = tuple(unwindset); self.uf = tuple(uf); self.new_cap = new_cap
 
     def module_key(self):
         return (self.harness, tuple(sorted(self.defines.items())), self.tus, self.stdmodel,
@@ -158,7 +158,7 @@ class Pipeline:
             r = sh([sys.executable, os.path.join(VT, 'ir2c.py'), os.path.join(d, 'module.ll'), os.path.join(d, 'module.c')] + (['--uf=' + ','.join(q.uf)] if q.uf else []), timeout=300)
             if r['rc'] != 0: raise BuildError('ir2c on %s: %s' % (q.harness, r['err'][-3000:]))
             meta = json.load(open(os.path.join(d, 'module.c.meta.json')))
-            badg = [g for g in meta['extern_globals'] if g.startswith('_ZTV') and not g.startswith('_ZTVN10__cxxabiv')]
+            badg = [g for g in meta['extern_globals'] if g.startswith('_ZTV') and not g.startswith('_ZTVN10__cxxabiv') and not g.startswith('_ZTVS')]
             if badg: raise BuildError('vtable symbols referenced but not defined (wrong mangled name or missing TU): ' + ', '.join(badg))
             meta['entries'] = entries; meta['overridden'] = overridden; meta['dir'] = d
             meta['build_s'] = round(time.time() - t0, 2)
@@ -178,6 +178,7 @@ class Pipeline:
                 '--no-malloc-may-fail', '--json-ui', '--verbosity', '8']
         for us in q.unwindset: cmd += ['--unwindset', us]
         if q.silent_throw: cmd += ['-DVT_THROW_ENDS_PATH_SILENTLY']
+        if q.new_cap: cmd += ['-DVT_NEW_CAP=%d' % q.new_cap]
         if witness:
             cmd += ['-DVT_WITNESS', '--no-unwinding-assertions']
         else:
@@ -355,7 +356,7 @@ class Pipeline:
     # ---- one query end to end
     def run_query(self, q, replay_root):
         rec = dict(query=q.name, harness=q.harness, entry=q.entry, defines=q.defines, bound=q.bound, unwind=q.unwind,
-                   stubs=['base.c'] + list(q.stubs), stdmodel=q.stdmodel, checks=q.checks, uninterpreted_float_ops=list(q.uf), verdict='error',
+                   stubs=['base.c'] + list(q.stubs), stdmodel=q.stdmodel, checks=q.checks, uninterpreted_float_ops=list(q.uf), operator_new_cap_bytes=q.new_cap, verdict='error',
                    failed=[], note=q.note)
         t0 = time.time()
         try:
